@@ -30,6 +30,10 @@ def run(chk):
              "(pt2-pt1)x(pt3-pt2); portable path: magnitudes and signs of the same factors; 128-bit tail returns sign(ab-cd) / (ab==cd) on every ordering")
     chk.rule("POLY.measure", "CrossProduct, DotProduct, DistanceSqr, PerpendicDistFromLineSqrd, GetClosestPointOnSegment equal their defining "
              "real-number formulas (identity of polynomial normal forms; rounding not decided)")
+    chk.rule("POLY.multiply", "Multiply(a, b): every returned {lo, hi} satisfies hi 2^64 + lo == a b as an identity over the integers (lo_k(x) defined as "
+             "x - 2^k hi_k(x), the upper halves uninterpreted): the partial products are recombined correctly wherever nothing wraps")
+    chk.rule("POLY.area", "Area(path): every accumulated term is the trapezoid term (prev.y + cur.y)(prev.x - cur.x) of two consecutive vertices in the order the "
+             "iterator arithmetic puts them, and the result is half the sum (loops in another style are not judged)")
     chk.rule("P.integer-only", "no expression of floating type in the exact predicates; products are formed in __int128 or in uint64 inside Multiply")
     chk.rule("TYPE.wide-kept", "no 128-bit product is converted to a narrower arithmetic type before it is compared")
     chk.rule("INT64.product", "no product is formed in a signed 64-bit integer type anywhere in the library")
@@ -51,6 +55,8 @@ def run(chk):
         e14.rule_intersect(db, chk, cfg)
         e14.rule_cross(db, chk, cfg)
         e14.rule_measure(db, chk, cfg)
+        e14.rule_multiply(db, chk, cfg)
+        e14.rule_area_terms(db, chk, cfg)
         nax = e3.axis_mirror_rule(db, chk, cfg)
         if nax < (10 if "hi" in cfg.split("+") else 4):
             from ..extract import AnalysisBroken
